@@ -115,7 +115,32 @@ def rule_sorted(ctx):
                   "relabel vector is no longer the increasing np.where(~mask)[0]", f.where())
 
 
+def rule_incongruence_ploidy(ctx):
+    """flag 2 of replicate_incongruence means "the chains' mode supports together hold more alleles than the ploidy": the number it is
+    compared with must be the ploidy of the trace.  The assemble version takes `len(alleles[0])`, the number of *distinct* haplotypes
+    in the first qualifying chain's support (known finding M: two constant tetraploid chains AAAB and ABCD give 2 in one order and
+    1 in the other; AAAB and AAAC - three alleles in a tetraploid - give 2)."""
+    for fq, what in (('mchap.assemble.classes.GenotypeMultiTrace.replicate_incongruence', 'assemble'),
+                     ('mchap.calling.classes.GenotypeAllelesMultiTrace.replicate_incongruence', 'call')):
+        f = ctx.func(fq)
+        r = ctx.recon(fq)
+        cmps = [x for ev in r.events for d in ev.data if isinstance(d, tuple) for x in walk(d) if x[0] == 'cmp' and x[1] in ('Gt', 'Lt')
+                and any(y[0] == 'call' and y[1] == 'len' for y in walk(x))]
+        cands = []
+        for x in cmps:
+            for side in (x[2], x[3]):
+                if side[0] == 'call' and side[1] == 'len' and side[2] and side[2][0][0] == 'idx' and side[2][0][2] == ('const', 0):
+                    cands.append(side[2][0][1])        # the list whose first element is measured
+        ctx.need(cmps, f"{fq}: comparison of the allele count with the ploidy not found")
+        # the measured object must be a genotype (length ploidy), not a set of distinct alleles
+        bad = [c for c in cands if any(y[0] == 'call' and (y[1].endswith('.alleles') or y[1].endswith('mset.unique')) for y in walk(c))]
+        ctx.check(not bad, 'R14.5/incongruence-ploidy', f.construct('ploidy'), "the allele count of the chains is compared with the ploidy of the trace",
+                  "the allele count of the chains is compared with the number of distinct alleles in the first chain's mode support, not with the ploidy: "
+                  "the flag depends on the order of the chains and reports copy-number variation for fewer alleles than the ploidy", f.where())
+
+
 def run(ctx):
+    rule_incongruence_ploidy(ctx)
     rule_burn(ctx)
     rule_posterior(ctx)
     rule_sorted(ctx)
